@@ -156,8 +156,22 @@ func runC05(c *an.Ctx) {
 		}
 		return true
 	})
+	// through: a parameter of a new helper the arm was split into stands for the argument it is bound to
+	binds := p.HelperBinds(el)
+	var through func(e ast.Expr, depth int) ast.Expr
+	through = func(e ast.Expr, depth int) ast.Expr {
+		e = an.Unparen(e)
+		if id, ok := e.(*ast.Ident); ok && depth < 4 {
+			if v, ok := an.ObjOf(info, id).(*types.Var); ok {
+				if bs := binds[v]; len(bs) == 1 {
+					return through(bs[0].Arg, depth+1)
+				}
+			}
+		}
+		return e
+	}
 	identIn := func(e ast.Expr, set map[types.Object]bool) (string, bool) {
-		id, ok := an.Unparen(e).(*ast.Ident)
+		id, ok := through(e, 0).(*ast.Ident)
 		if !ok {
 			return "", false
 		}
@@ -180,8 +194,8 @@ func runC05(c *an.Ctx) {
 				return true
 			}
 			if sel, ok := an.Unparen(ix.X).(*ast.SelectorExpr); ok && sel.Sel.Name == "Left" {
-				if inner, ok := an.Unparen(sel.X).(*ast.SelectorExpr); ok && inner.Sel.Name == "Set" && typeOf(inner.X) == "*jet.RangeNode" {
-					if id, ok := an.Unparen(ix.Index).(*ast.Ident); ok {
+				if inner, ok := through(sel.X, 0).(*ast.SelectorExpr); ok && inner.Sel.Name == "Set" && typeOf(inner.X) == "*jet.RangeNode" {
+					if id, ok := through(ix.Index, 0).(*ast.Ident); ok {
 						slot = id
 					}
 				}
